@@ -113,19 +113,19 @@ def effOf (fs : Fields) (ents : List (Nat × RwT)) (n : Nat) : Option Val :=
   | _, _ => none
 
 /-- what the invariant says about one table entry, with the leaf theorem applied -/
-theorem entry_sem (pf : PF) (fs : Fields) (tfs : TFields) (hP : PresOK fs tfs) (ms : GMs) (ents : List (Nat × RwT))
+theorem entry_sem (pf : PF) (hpf : PFok pf) (fs : Fields) (tfs : TFields) (hP : PresOK fs tfs) (ms : GMs) (ents : List (Nat × RwT))
     (hinv : Inv pf tfs ms ents) (hstr : ∀ k jv s, GMem k jv ms → gvString jv = some s → s.length < 2 ^ 64)
     (k : Bytes) (jv : GV) (n : Nat) (kind : PKind) (r : RwT) (hm : GMem k jv ms)
     (hl : lookupFieldByName tfs k = some (n, false, .prim kind)) (hr : (n, r) ∈ ents) (hrel : LeafRel pf kind n jv r) :
-    ∃ i o t x, findField fs n = some (i, o, t) ∧ leafVal kind jv = some x ∧ LeafLike r ∧
+    ∃ i o t x, findField fs n = some (i, o, t) ∧ leafVal pf kind jv = some x ∧ LeafLike r ∧
       EntSem fs n (toSpec (convR r)) i (effOf fs ents n) ∧ (effOf fs ents n).getD (valsGet (zeroFields fs) i) = x := by
   obtain ⟨_, kind', i, o, t, hk, hfind, hkind, h0, h1⟩ := hP.scalar k n false _ hl
   simp only [TType.prim.injEq] at hk
   subst hk
   have hget := getRwT_of_mem ents n r hinv.sorted hr
-  have hleaf := leaf_sem pf t o kind hkind n h0 h1 jv (fun s hs => hstr k jv s hm hs)
+  have hleaf := leaf_sem pf hpf t o kind hkind n h0 h1 jv (fun s hs => hstr k jv s hm hs)
   obtain ⟨_, _, tg, hat, _⟩ := findField_spec fs n i o t hfind
-  cases hv : leafVal kind jv with
+  cases hv : leafVal pf kind jv with
   | none =>
     rw [hv] at hleaf
     rcases hrel with ⟨hp, _⟩ | ⟨rb, hp, _⟩ <;> simp [hp] at hleaf
@@ -154,7 +154,7 @@ theorem entry_sem (pf : PF) (fs : Fields) (tfs : TFields) (hP : PresOK fs tfs) (
         · rw [heff]; rfl
 
 /-- **`template_rewrite_value` on flat messages, any number of templated scalar fields.** -/
-theorem template_rewrite_value_flat (pf : PF) (fs : Fields) (hfs : flat fs = true) (tfs : TFields) (hP : PresOK fs tfs)
+theorem template_rewrite_value_flat (pf : PF) (hpf : PFok pf) (fs : Fields) (hfs : flat fs = true) (tfs : TFields) (hP : PresOK fs tfs)
     (ms : GMs) (hnd : KeysNodup ms) (hstr : ∀ k jv s, GMem k jv ms → gvString jv = some s → s.length < 2 ^ 64)
     (fuel : Nat) (hfuel : gmLen ms + 4 ≤ fuel) (tree : RwT)
     (hparse : parseTemplate pf fuel (.msg tfs) (.obj ms) [] = .ok tree)
@@ -163,7 +163,7 @@ theorem template_rewrite_value_flat (pf : PF) (fs : Fields) (hfs : flat fs = tru
     ∃ out res', (∀ F, b.length + gmLen ms + 4 ≤ F → rewriteT F tree b = .ok out) ∧
       decode (.struct fs) out = some (.struct res') ∧ res'.length = fs.length ∧
       (∀ k jv n kind i o t, GMem k jv ms → lookupFieldByName tfs k = some (n, false, .prim kind) →
-        findField fs n = some (i, o, t) → ∃ x, leafVal kind jv = some x ∧ valsGet res' i = x) ∧
+        findField fs n = some (i, o, t) → ∃ x, leafVal pf kind jv = some x ∧ valsGet res' i = x) ∧
       (∀ j, (∀ k jv n kind i o t, GMem k jv ms → lookupFieldByName tfs k = some (n, false, .prim kind) →
         findField fs n = some (i, o, t) → i ≠ j) → valsGet res' j = valsGet res j) := by
   obtain ⟨f, rfl⟩ : ∃ f, fuel = f + 1 := ⟨fuel - 1, by omega⟩
@@ -174,15 +174,15 @@ theorem template_rewrite_value_flat (pf : PF) (fs : Fields) (hfs : flat fs = tru
   | ok ents =>
     simp only [hm, Res.bind, bne_self_eq_false, Bool.false_eq_true, if_false, Res.ok.injEq] at hparse
     subst hparse
-    have hinv := parseMembers_inv pf fs tfs hP ms f ents (by omega) hnd hstr hm
+    have hinv := parseMembers_inv pf hpf fs tfs hP ms f ents (by omega) hnd hstr hm
     -- every entry with its member
     have hent : ∀ n r, (n, r) ∈ ents → ∃ k jv kind i o t x, GMem k jv ms ∧
-        lookupFieldByName tfs k = some (n, false, .prim kind) ∧ findField fs n = some (i, o, t) ∧ leafVal kind jv = some x ∧
+        lookupFieldByName tfs k = some (n, false, .prim kind) ∧ findField fs n = some (i, o, t) ∧ leafVal pf kind jv = some x ∧
         LeafLike r ∧ EntSem fs n (toSpec (convR r)) i (effOf fs ents n) ∧
         (effOf fs ents n).getD (valsGet (zeroFields fs) i) = x := by
       intro n r hr
       obtain ⟨k, jv, kind, hmem, hl, hrel⟩ := hinv.sound n r hr
-      obtain ⟨i, o, t, x, a, b', c, d, e⟩ := entry_sem pf fs tfs hP ms ents hinv hstr k jv n kind r hmem hl hr hrel
+      obtain ⟨i, o, t, x, a, b', c, d, e⟩ := entry_sem pf hpf fs tfs hP ms ents hinv hstr k jv n kind r hmem hl hr hrel
       exact ⟨k, jv, kind, i, o, t, x, hmem, hl, a, b', c, d, e⟩
     obtain ⟨c1, c2, c3, c4, c5, c6⟩ := conv_facts ents (tableLen ents)
       (fun p hp => by obtain ⟨_, _, _, _, _, _, _, _, _, _, _, hL, _⟩ := hent p.1 p.2 hp; exact hL)
